@@ -1,5 +1,5 @@
 // ===== shared specification vocabulary and lemma base (spec/proof only) =====
-pub open spec const B: nat = 0x1_0000_0000_0000_0000;
+pub open spec const B: int = 0x1_0000_0000_0000_0000;
 
 // value of the first n limbs, little endian, base 2^64
 pub open spec fn lv(s: Seq<u64>, n: nat) -> nat
@@ -93,3 +93,6 @@ pub assume_specification [u64::overflowing_add] (a: u64, b: u64) -> (r: (u64, bo
 
 pub assume_specification [u64::overflowing_sub] (a: u64, b: u64) -> (r: (u64, bool))
     ensures r.0 as int == (a as int - b as int) % 0x1_0000_0000_0000_0000, r.1 == ((a as int - b as int) < 0int);
+
+pub assume_specification [u64::wrapping_neg] (a: u64) -> (r: u64)
+    ensures r as int == (if a == 0 { 0int } else { 0x1_0000_0000_0000_0000 - a as int });
